@@ -647,6 +647,7 @@ func main() {
 	fmt.Fprintf(&lb, "/-- stdlib setproduct: per-argument and total length thresholds of the unknown-length refinement -/\ndef setproductArgMaxLen : Nat := %d\ndef setproductMaxLength : Nat := %d\n", cmpConst(sl, "argMaxLen", ">"), cmpConst(sl, "maxLength", ">"))
 	lb.WriteString("\nend CtyModel.Generated\n")
 	writeIfChanged(filepath.Join(*leanDir, "Limits.lean"), lb.String())
+	writeIntBounds(*repo, *leanDir, hdr) // C18: gocty integer bound tables (intbounds.go)
 
 	// the pure recursive core of cty.Type, translated (translate.go)
 	ndefs := translateTyFns(*repo, *leanDir, hdr)
